@@ -149,6 +149,12 @@ func runHist(c *histCase, cov func(string)) *histFail {
 		b.OpWriter = &logBuf
 	}
 	wantOps, wantOpN := 0, 0
+	type heldValue struct {
+		b    *roaring.Bitmap
+		want []uint64
+		step int
+	}
+	var held []heldValue
 	fail := func(i int, op, what, format string, a ...interface{}) *histFail {
 		return &histFail{i, op, what, fmt.Sprintf(format, a...)}
 	}
@@ -233,6 +239,15 @@ func runHist(c *histCase, cov func(string)) *histFail {
 			}
 		case "Optimize":
 			b.Optimize()
+		case "Hold":
+			// a caller keeps a value derived from the bitmap; its containers are frozen now
+			var h *roaring.Bitmap
+			if i%2 == 0 && p.Keys[p.K-1] < 1<<48-1 {
+				h = b.OffsetRange(0, 0, (p.Keys[p.K-1]+1)<<16)
+			} else {
+				h = b.Freeze()
+			}
+			held = append(held, heldValue{h, p.Set(rs), i})
 		case "Reencode":
 			var sb bytes.Buffer
 			if _, err := b.WriteTo(&sb); err != nil {
@@ -329,6 +344,15 @@ func runHist(c *histCase, cov func(string)) *histFail {
 			if lOps != wantOps || lOpN != wantOpN {
 				return fail(i, op, "counters_vs_spec", "after %s ops/opN = %d/%d, spec says %d/%d", op, lOps, lOpN, wantOps, wantOpN)
 			}
+		}
+	}
+	// values held since a Hold step must still have the contents they had then
+	for _, h := range held {
+		if got := h.b.Slice(); !gamma.Equal(h.want, got) {
+			return fail(len(c.Beh), "final", "held_changed", "the value held at step %d changed: %s", h.step, gamma.Diff(h.want, got))
+		}
+		if got := h.b.Count(); got != uint64(len(h.want)) {
+			return fail(len(c.Beh), "final", "held_count", "the value held at step %d: Count() = %d, want %d", h.step, got, len(h.want))
 		}
 	}
 	// final state through every read path, then after re-encode/decode
